@@ -2116,6 +2116,7 @@ class Engine:
     PORTFOLIO_SHORT_FIRST = ({"auto_config": False, "_timeout_ms": 1500}, {"_timeout_ms": 1500}, {"smt.arith.solver": 2, "_timeout_ms": 1500},
                              {"auto_config": False}, {}, {"smt.arith.solver": 2})
     solver_opts = PORTFOLIO_SHORT_FIRST
+    RL_PER_MS = 8000
 
     def solve(self, ob, extra_axioms=()):
         t0 = time.time()
@@ -2132,7 +2133,11 @@ class Engine:
             if trivially_false:
                 opts = dict(opts, _timeout_ms=500)       # nothing to prove unless the path is infeasible: a short budget is enough
             s = z3.Solver()
-            s.set("timeout", int(opts.get("_timeout_ms", self.timeout_ms)))
+            # the budget is a RESOURCE limit (z3's deterministic rlimit, about RL_PER_MS units per millisecond on an idle core), so that a verdict does not
+            # depend on how busy the machine is; the wall-clock timeout is only a safety net far above it
+            budget = int(opts.get("_timeout_ms", self.timeout_ms))
+            s.set("rlimit", budget * self.RL_PER_MS)
+            s.set("timeout", max(budget * 20, 60000))
             for k_, v_ in opts.items():
                 if not k_.startswith("_"):
                     s.set(k_, v_)
